@@ -38,29 +38,29 @@ const (
 
 type node struct {
 	k     kind
-	sym   string     // kSym
-	alias string     // kSym, kGroup, kChoice, kList, kSet
-	alts  [][]*node  // kOpt, kGroup: one; kChoice: several
-	paren bool       // kOpt printed with parentheses (own name scope)
-	elem  []string   // kList: element symbols
-	sep   string     // kList
-	star  bool       // kList
-	set   []string   // kSet
-	pos   int        // kSym, kList, kSet: 1-based position in the rule as written
-	tag   string     // kAct
-	end   bool       // kAct: the designated end-of-rule action (assigns $$)
-	lhs   int        // kAct/end: value assigned to $$
-	refs  []ref      // kAct: references recorded by the action (filled by analyse)
-	mid   bool       // kAct: not the last element of the top-level sequence
+	sym   string    // kSym
+	alias string    // kSym, kGroup, kChoice, kList, kSet
+	alts  [][]*node // kOpt, kGroup: one; kChoice: several
+	paren bool      // kOpt printed with parentheses (own name scope)
+	elem  []string  // kList: element symbols
+	sep   string    // kList
+	star  bool      // kList
+	set   []string  // kSet
+	pos   int       // kSym, kList, kSet: 1-based position in the rule as written
+	tag   string    // kAct
+	end   bool      // kAct: the designated end-of-rule action (assigns $$)
+	lhs   int       // kAct/end: value assigned to $$
+	refs  []ref     // kAct: references recorded by the action (filled by analyse)
+	mid   bool      // kAct: not the last element of the top-level sequence
 }
 
 // rule is one nonterminal with a single alternative as written.
 type rule struct {
 	name   string
 	body   []*node
-	npos   int              // number of positions
-	posOf  map[int]*node    // position -> node
-	exps   [][]entry        // every expansion (lists bounded by 2 elements)
+	npos   int           // number of positions
+	posOf  map[int]*node // position -> node
+	exps   [][]entry     // every expansion (lists bounded by 2 elements)
 	hasMid bool
 	// forceFL: record first()/last() even in actions where they can land on an extracted action
 	// or lookahead nonterminal (the generator fails with an internal error on those at present)
